@@ -44,7 +44,8 @@ def miri_run(c, args, flags, target=None, timeout=None):
     crate = os.path.join(c.simroot(), 'mirisim')
     c.ensure_lock(crate)
     env = dict(miri_env(c), MIRIFLAGS=' '.join(flags))
-    cmd = ['cargo', '+nightly', 'miri', 'run', '--offline', '--quiet'] + (['--target', target] if target else []) + ['--'] + args
+    feats = ['--features', 'failhooks'] if args and args[0] == 'big32-fail' else []
+    cmd = ['cargo', '+nightly', 'miri', 'run', '--offline', '--quiet'] + feats + (['--target', target] if target else []) + ['--'] + args
     try:
         p = subprocess.run(cmd, cwd=crate, env=env, stdout=subprocess.PIPE, stderr=subprocess.STDOUT, text=True, timeout=timeout)
         return p.returncode, p.stdout
@@ -239,6 +240,25 @@ def run_miri_big32(c, tier='quick'):
                                    'violation': {'invariant': f'miri_{mode}', 'op': 'directed history over >16 MiB strings', 'target': tname,
                                                  'fault': 'none', 'detail': detail}})
                 break
+    # allocation failure on the 32-bit length-on-heap paths (hooked crate, minimal failing table)
+    if not violations:
+        crate = os.path.join(c.simroot(), 'mirisim')
+        env = dict(miri_env(c), MIRIFLAGS='-Zmiri-seed=0')
+        cmd = ['cargo', '+nightly', 'miri', 'run', '--offline', '--quiet', '--features', 'failhooks', '--target', 'i686-unknown-linux-gnu', '--', 'big32-fail']
+        p = subprocess.run(cmd, cwd=crate, env=env, stdout=subprocess.PIPE, stderr=subprocess.STDOUT, text=True)
+        stats['targets'].append({'target': 'i686-unknown-linux-gnu', 'scenario': 'big32-fail (allocator seam, failing table)', 'ok': p.returncode == 0})
+        if p.returncode != 0:
+            detail = miri_error_summary(p.stdout)
+            m = re.search(r'VIOLATION-DETAIL (.*)', p.stdout)
+            if m:
+                detail = m.group(1)[:400]
+            os.makedirs(c.REPLAYS, exist_ok=True)
+            path = os.path.join(c.REPLAYS, 'C03-mirisim-big32-fail-i686.json')
+            json.dump({'property': 'C03', 'engine': 'mirisim', 'mode': 'big32-fail', 'target': 'i686-unknown-linux-gnu', 'miri_seed': 0,
+                       'preemption_rate': '0.01', 'miri_error': detail, 'output_tail': p.stdout[-3000:]}, open(path, 'w'), indent=1)
+            violations.append({'class': 'miri_big32_fail|i686', 'count': 1, 'replay': path,
+                               'violation': {'invariant': 'miri_big32_fail', 'op': 'refused copy of a shared >16 MiB buffer', 'target': 'i686-unknown-linux-gnu',
+                                             'fault': 'alloc_null', 'detail': detail}})
     # seeded random histories over lengths and capacities straddling the 24-bit limit
     n = 256 if tier == 'thorough' else 32
     steps = 40
@@ -276,6 +296,29 @@ def run_miri_big32(c, tier='quick'):
     return stats, violations
 
 
+def run_miri_big32_fail(c, prop):
+    """C05 (also part of C03's big32 block): refused copies of a shared > 16 MiB buffer on i686."""
+    c.gen_shadow()
+    miri_setup(c, 'i686-unknown-linux-gnu')
+    t0 = time.time()
+    rc, out = miri_run(c, ['big32-fail'], ['-Zmiri-seed=0'], target='i686-unknown-linux-gnu', timeout=3600)
+    stats = {'target': 'i686-unknown-linux-gnu', 'scenario': 'big32-fail', 'ok': rc == 0, 'wall_s': round(time.time() - t0, 1)}
+    violations = []
+    if rc != 0:
+        detail = miri_error_summary(out)
+        m = re.search(r'VIOLATION-DETAIL (.*)', out)
+        if m:
+            detail = m.group(1)[:400]
+        os.makedirs(c.REPLAYS, exist_ok=True)
+        path = os.path.join(c.REPLAYS, f'{prop}-mirisim-big32-fail-i686.json')
+        json.dump({'property': prop, 'engine': 'mirisim', 'mode': 'big32-fail', 'target': 'i686-unknown-linux-gnu', 'miri_seed': 0,
+                   'preemption_rate': '0.01', 'miri_error': detail, 'output_tail': out[-3000:]}, open(path, 'w'), indent=1)
+        violations.append({'class': 'miri_big32_fail|i686', 'count': 1, 'replay': path,
+                           'violation': {'invariant': 'miri_big32_fail', 'op': 'refused copy of a shared >16 MiB buffer', 'target': 'i686-unknown-linux-gnu',
+                                         'fault': 'alloc_null', 'detail': detail}})
+    return stats, violations
+
+
 def replay(c, path, j):
     if j.get('engine') == 'schedsim':
         b = build_sched(c)
@@ -283,7 +326,7 @@ def replay(c, path, j):
     if j.get('engine') == 'mirisim':
         miri_setup(c)
         flags = [f"-Zmiri-seed={j['miri_seed']}", f"-Zmiri-preemption-rate={j['preemption_rate']}"]
-        if j.get('mode') in ('big32', 'big32-min', 'big32-conc'):
+        if j.get('mode') in ('big32', 'big32-min', 'big32-conc', 'big32-fail'):
             rc, out = miri_run(c, [j['mode']], flags, target=j.get('target'))
         elif j.get('mode') == 'bighist':
             rc, out = miri_run(c, ['bighist', '--seed', str(j['seed']), '--from', str(j['index']), '--to', str(j['index'] + 1), '--steps', str(j['steps'])], flags, target=j.get('target'))
